@@ -5,8 +5,8 @@ PROPS = {
     "C15": [("u_art", "quick"), ("u_link", "quick")],
     "C09": [("u_dcefx", "quick"), ("u_ceffect", "quick")],
     "C11": [("u_bp", "quick")],
-    "C04": [("u_mls", "quick"), ("u_input", "quick"), ("u_pcore", "quick"), ("u_tree", "quick"), ("u_kind", "quick"), ("u_grammar", "quick")],
-    "C12": [("u_mls", "quick"), ("u_input", "quick"), ("u_pcore", "quick"), ("u_tree", "quick"), ("u_kind", "quick"), ("u_grammar", "quick")],
+    "C04": [("u_mls", "quick"), ("u_input", "quick"), ("u_pcore", "quick"), ("u_tree", "quick"), ("u_kind", "quick"), ("u_grammar", "quick"), ("u_parse", "quick")],
+    "C12": [("u_mls", "quick"), ("u_input", "quick"), ("u_pcore", "quick"), ("u_tree", "quick"), ("u_kind", "quick"), ("u_grammar", "quick"), ("u_parse", "quick")],
 }
 
 
